@@ -445,12 +445,31 @@ def returned_names(fnode):
     return [e.id for e in rets[-1].value.elts]
 
 
+def first_stable(m, F):
+    """Once found, final: FIRST_x(m, j) non-empty for a prefix j of the walk => FIRST_x over the whole walk is that text."""
+    j = z3.Int("j!fs")
+    return z3.ForAll([j], z3.Implies(z3.And(j >= 0, j <= M.W_N(m), z3.Length(F(m, j)) > 0), F(m, M.W_N(m)) == F(m, j)), patterns=[F(m, j)])
+
+
+def first_stable_lemmas():
+    """Induction on n >= j (base n == j: reflexivity; step below, from the defining equation at n + 1)."""
+    out = []
+    m, j, n = z3.Const("m!fs", M.MsgS), z3.Int("j!fsl"), z3.Int("n!fsl")
+    for nm, F in (("plain", M.FIRST_P), ("html", M.FIRST_H)):
+        out.append((f"C16/mbox_email_extractor.py::spec/lemma#first-found-{nm}-is-final",
+                    [j >= 0, n >= j, z3.Length(F(m, j)) > 0, F(m, n) == F(m, j), M.first_def(m, n + 1)],
+                    z3.And(F(m, j) == F(m, j), F(m, n + 1) == F(m, j))))
+    return out
+
+
 def body_contract():
     def m_of(c):
         return c.args["message"].t
 
     def hyp(c):
-        return M.first_def(m_of(c), z3.IntVal(0))
+        # FIRST_P / FIRST_H at 0, and their stability (lemma first-found-is-final, proved by induction in lemmas()): a walk that
+        # stops early, once what it looks for is found, has the same result as the full walk
+        return z3.And(M.first_def(m_of(c), z3.IntVal(0)), first_stable(m_of(c), M.FIRST_P), first_stable(m_of(c), M.FIRST_H))
 
     def inv(lc):
         m = lc.entry.lookup("message").t
@@ -717,8 +736,14 @@ def mail_addr_list_matches(st, v, mail, field, names="mapping"):
     n_spec = M.ML_N(mail, f)
     tag = M.seq_tag(st, v)
     if not (isinstance(tag, tuple) and tag and tag[0] in ("map", "filtermap")):
-        return None
-    if tag[0] == "map":
+        # built by appends in a loop: read positionally.  Every entry mailparser reports carries an address (assumed shape), so
+        # the specified filter-map keeps every entry and position k of the result is entry k.
+        r = seq_of(st, v, ("obj", "EmailAddress"))
+        if r is None:
+            return None
+        n, el = r
+        keep = lambda k: z3.BoolVal(True)
+    elif tag[0] == "map":
         _t, n, el = tag
         keep = lambda k: z3.BoolVal(True)
     else:
@@ -756,6 +781,28 @@ def eml_spec(mail):
 
 EML_LISTS = {"to_emails": "to", "to_cc": "cc", "to_bcc": "bcc", "reply_to": "reply_to"}
 LIB_SITES = ("mailparser.parse_from_bytes", "base64.b64decode")
+
+
+def walked_length(seq):
+    """The length term that identifies the sequence a loop walks: of the sequence itself (`for a in mail.attachments`), or of the
+    sequence whose indices 0 .. len-1 are walked in order (`for i in range(len(mail.attachments))`, recognised by its shape:
+    length If(n < 0, 0, n) and element k == k).  None: not recognised."""
+    if not isinstance(seq, VSeq):
+        return None
+    t = seq.length
+    try:
+        if z3.is_app(t) and t.decl().kind() == z3.Z3_OP_ITE:
+            c, a, b = t.children()
+            if z3.is_int_value(a) and a.as_long() == 0 and z3.is_app(b) and b.decl().kind() == z3.Z3_OP_UNINTERPRETED \
+                    and c.eq(b < 0):
+                k = z3.Int("k!wl")
+                e = seq.elem(k)
+                if isinstance(e, VInt) and z3.simplify(e.t - k).eq(z3.IntVal(0)):
+                    return b
+            return None
+    except Exception:  # noqa
+        return None
+    return t
 
 
 def eml_contract():
@@ -814,10 +861,30 @@ def eml_contract():
         return z3.And(n == M.MA_N(mail), forall(n, lambda k: att_ok(c.st, el(k), M.MA_AT(mail, k)), "k!ea"))
 
     def inv(lc):
+        """One invariant for every loop of the body, by what the loop walks: over mail.attachments the list built so far is the
+        specified attachments prefix; over an address list of the mail it is the specified recipients prefix; other loops: True."""
         mail = M.MAILOF(M.bytes_term(lc.entry.lookup("payload")))
-        n, el = built_list(lc, 0, ("obj", "EmailAttachment"))
+        t = walked_length(lc.seq)
+        what = t.decl().name() if t is not None and z3.is_app(t) else ""
         i = lc.i
-        return Conj([("count", n == i), ("items", forall(i, lambda k: att_ok(lc.st, el(k), M.MA_AT(mail, k)), "k!ei"))])
+        if what == "mail_attachments_n":
+            n, el = built_list(lc, None, ("obj", "EmailAttachment"))
+            return Conj([("count", n == i), ("items", forall(i, lambda k: att_ok(lc.st, el(k), M.MA_AT(mail, k)), "k!ei"))])
+        if what == "mail_addresses_n":
+            f = t.arg(1)
+            n, el = built_list(lc, None, ("obj", "EmailAddress"))
+
+            def body(k):
+                nm, ad = addr_fields(lc.st, el(k))
+                return z3.And(M.UNFOLD(nm) == M.UNFOLD(M.ML_NAME(mail, f, k)), ad == M.ML_ADDR(mail, f, k))
+            return Conj([("count", n == i), ("items", forall(i, body, "k!ai")),
+                         ("unfolded", forall(i, lambda k: addr_fields(lc.st, el(k))[0] == M.UNFOLD(M.ML_NAME(mail, f, k)), "k!au"))])
+        nodes = getattr(lc.ex, "_loop_nodes", [])
+        if nodes and M._appended_in(nodes[-1]):
+            # a loop that builds a list while walking something this invariant does not recognise (a slice, a filtered or
+            # re-ordered view, a counter with another start ...): nothing can be said about the list, which is not `True`
+            raise M.ShapeUnknown("loop builds a list while walking a sequence this invariant does not recognise")
+        return Conj([])
 
     def lib_only(c):
         return z3.BoolVal(c.exc is not None and c.exc.attrs.get("site") in LIB_SITES)
@@ -856,7 +923,7 @@ def eml_contract():
                  ("body_html-is-the-joined-html-parts", f_str(("body_html",), "body_html")),
                  ("every-attachment-with-name-type-exact-bytes-and-support-flag", e_atts)],
         raises=[Raises("Exception", sub=True, when=lib_only, label="only what mailparser / base64 raise; the glue itself is total")],
-        loops={0: LoopSpec(inv=inv, label="attachments")},
+        loops={"*": LoopSpec(inv=inv)},
         result_maker=result_maker,
         note="field mapping from the mailparser view; attachment data == decoded payload",
     )
@@ -935,6 +1002,10 @@ def lemmas():
         is_none, val = C07.ft_spec(p)
         out.append((f"C16/router.py::spec/lemma#mime-fallback-routes.{v}", facts_for(c) + [C07.splitext_axioms(z3.StringVal(c.lower()))],
                     z3.And(z3.Not(is_none), val == z3.StringVal(v), z3.BoolVal(v in REG))))
+    try:
+        out.extend(first_stable_lemmas())
+    except Exception:  # noqa  (never let an exception escape from lemmas())
+        pass
     return out
 
 
